@@ -398,6 +398,11 @@ def gen_cases(ctx):
             add({"kind": "api", "name": "S", "fields": [[a, "REQ"], [b, "OPT"]]})
     for a, b, c in zip(NAME_POOL, NAME_POOL[1:], NAME_POOL[2:]):
         add({"kind": "api", "name": "S", "fields": [[a, "REQ"], [b, "OPT"], [c, None], [a.lower(), "REQ"], [b.upper(), "REQ"]]})
+    # wide schemas: many fields / long names (the `field` alternation and every per-field rule grow with the schema)
+    for n_fields in (12, 20, 40, 120):
+        add({"kind": "api", "name": "WIDE", "fields": [[f"FIELD_{i:03d}", ["REQ", "OPT", "OPT∧ENUM[A,B]", "TYPE[NUMBER]"][i % 4]] for i in range(n_fields)]})
+    add({"kind": "api", "name": "LONGNAMES", "fields": [[f"section.sub_{i}.a_rather_long_dotted/field-name_{i}", "REQ"] for i in range(6)]})
+    add({"kind": "doc", "name": "S", "fields": [[f"F{i}", "REQ"] for i in range(30)]})
     # E5 document routes: names x chains (reader decides what it accepts)
     doc_chains = [None, "REQ", "OPT∧ENUM[A,B]", 'CONST["a\\"b"]', 'REGEX["^[a-z]+$"]', 'REGEX["^abc$"]', "TYPE[NUMBER]", "DATE", "REQ∧ISO8601", "CONST[42]", "ENUM[1,2.50,true]",
                   'CONST["a\\\\b"]', "TYPE[LIST]", "APPEND_ONLY", "DIR", "RANGE[1,5]", "MIN_LENGTH[2]", "MAX_LENGTH[3]", "TYPE[LITERAL]", "LANG[python]", 'REGEX["^a.c$"]', 'REGEX["^\\\\d+$"]']
